@@ -9,7 +9,7 @@ open RichModel RichModel.Screen
 /-- Invariant: the view is what the screen shows; everything on display is still on screen; the
 recorded shape is the height on display; hook depth follows `started`; nothing is displayed before start. -/
 structure Good (cfg : Cfg) (st : St) (v : View) (s : Screen) : Prop where
-  shown : ∃ k, Shown s v.printed v.frame k ∧ (region v.frame).length + k ≤ cfg.height
+  shown : ∃ k, Shown s (v.printed.map (cells cfg.cw)) (v.frame.map (cells cfg.cw)) k ∧ (region v.frame).length + k ≤ cfg.height
   shape : ShapeOk st.shape v.frame
   hooks : st.hooks = if st.started then 1 else 0
   idle : st.started = false → v.frame = [] ∧ st.shape = none
@@ -23,68 +23,137 @@ theorem columnCalls_noFault (c : Nat) (ts : List Task) : (columnCalls noFault c 
     · simp; exact ih _
     · exact ih _
 
-theorem setShape_length (f : Frame) (w h : Nat) : (setShape f w h).length = max f.length h := by
+theorem setShape_length (cw : Char → Nat) (f : Frame) (w h : Nat) : (setShape cw f w h).length = max f.length h := by
   simp [setShape]; omega
 
 /-- What a hooked print does when nothing fails. -/
 structure HookedRes (cfg : Cfg) (st : St) (U : List Line) (r : Res) : Prop where
   err : r.err = none
-  out : r.out = positionCursor st.shape ++ emitLines U ++ emitFrame (shown cfg r.st)
+  out : r.out = positionCursor st.shape ++ emitCells cfg U ++ emitFrame ((shown cfg r.st).map (cells cfg.cw))
   shape : ShapeOk r.st.shape (shown cfg r.st)
+  isSome : r.st.shape.isSome = true
   hooks : r.st.hooks = st.hooks
   started : r.st.started = st.started
+  bufOut : r.st.bufOut = st.bufOut
+  bufErr : r.st.bufErr = st.bufErr
 
 theorem hooked_noFault (cfg : Cfg) (st : St) (U : List Line) : HookedRes cfg st U (hooked cfg noFault st U) := by
   cases hk : cfg.kind
   · -- live
     simp only [hooked, hk, noFault]
-    refine ⟨rfl, ?_, ?_, rfl, rfl⟩
-    · simp [shown, hk]
-    · simp [shown, hk, ShapeOk, getShape]
+    refine ⟨rfl, ?_, ?_, rfl, rfl, rfl, rfl, rfl⟩
+    · simp [shown, hk, curWidth, rendered]
+    · simp [shown, hk, ShapeOk, getShape, curWidth, rendered]
   · -- progress
     simp only [hooked, hk]
     cases hs : st.shape with
     | none =>
-      refine ⟨rfl, ?_, ?_, rfl, rfl⟩
-      · simp [shown, hk, progressFrame, hs]
-      · simp [shown, hk, progressFrame, ShapeOk, setShape_length, getShape]
+      refine ⟨rfl, ?_, ?_, rfl, rfl, rfl, rfl, rfl⟩
+      · simp [shown, hk, progressFrame, hs, curWidth]
+      · simp [shown, hk, progressFrame, ShapeOk, setShape_length, getShape, curWidth]
     | some wh =>
-      refine ⟨rfl, ?_, ?_, rfl, rfl⟩
-      · simp [shown, hk, progressFrame, hs]
-      · simp [shown, hk, progressFrame, ShapeOk, setShape_length, getShape]; omega
+      refine ⟨rfl, ?_, ?_, rfl, rfl, rfl, rfl, rfl⟩
+      · simp [shown, hk, progressFrame, hs, curWidth]
+      · simp [shown, hk, progressFrame, ShapeOk, setShape_length, getShape, curWidth]; omega
   · -- status
     simp only [hooked, hk, noFault]
-    refine ⟨rfl, ?_, ?_, rfl, rfl⟩
-    · simp [shown, hk]
-    · simp [shown, hk, ShapeOk, getShape]
+    refine ⟨rfl, ?_, ?_, rfl, rfl, rfl, rfl, rfl⟩
+    · simp [shown, hk, curWidth, rendered]
+    · simp [shown, hk, ShapeOk, getShape, curWidth, rendered]
+
+theorem plain_terminal {cfg : Cfg} (hc : cfg.plain = true) : cfg.terminal = true := by
+  simp [Cfg.plain] at hc; exact hc.1.1
+
+theorem plain_ansi {cfg : Cfg} (hc : cfg.plain = true) : cfg.ansi = true := by
+  simp [Cfg.plain] at hc; simp [Cfg.ansi, hc.1.1, hc.1.2]
+
+theorem plain_disable {cfg : Cfg} (hc : cfg.plain = true) : cfg.disable = false := by
+  simp [Cfg.plain] at hc; exact hc.2
+
+/-- On a terminal a print goes through the hook when one is installed. -/
+theorem doPrint_plain {cfg : Cfg} (hc : cfg.plain = true) (fails : Nat → Bool) (st : St) (U : List Line) :
+    doPrint cfg fails st U = if st.hooks > 0 then hooked cfg fails st U else { st := st, out := emitCells cfg U } := by
+  simp [doPrint, plain_terminal hc]
 
 /-- `refresh()` when nothing fails: a hooked print of nothing while the hook is installed, silent otherwise. -/
-theorem doRefresh_noFault (cfg : Cfg) (st : St) :
+theorem doRefresh_noFault (cfg : Cfg) (hc : cfg.plain = true) (st : St) :
     let r := doRefresh cfg noFault st
     (st.hooks > 0 → HookedRes cfg st [] r) ∧
     (st.hooks = 0 → r.err = none ∧ r.out = [] ∧ r.st.shape = st.shape ∧ r.st.hooks = st.hooks ∧ r.st.started = st.started) := by
+  have ha := plain_ansi hc
+  have hd := plain_disable hc
   cases hk : cfg.kind
-  · simp only [doRefresh, hk]
+  · simp only [doRefresh, hk, ha, if_true]
     constructor
     · intro h; simp only [h, if_true]; exact hooked_noFault cfg st []
     · intro h; simp [h]
-  · simp only [doRefresh, hk]
-    have hc := columnCalls_noFault st.calls st.tasks
-    generalize columnCalls noFault st.calls st.tasks = cc at hc
+  · simp only [doRefresh, hk, ha, hd, Bool.not_true, Bool.or_self, Bool.false_eq_true, if_false]
+    have hcc := columnCalls_noFault st.calls st.tasks
+    generalize columnCalls noFault st.calls st.tasks = cc at hcc
     obtain ⟨c, ok⟩ := cc
-    simp only at hc
-    subst hc
+    simp only at hcc
+    subst hcc
     simp only [Bool.not_true, Bool.false_eq_true, if_false]
     constructor
     · intro h
       simp only [h, if_true]
-      have := hooked_noFault cfg { st with calls := c, renderable := tasksTable st.tasks } []
-      exact ⟨this.err, this.out, this.shape, this.hooks, this.started⟩
+      have := hooked_noFault cfg { st with calls := c, renderable := tasksTable cfg.cw st.tasks } []
+      exact ⟨this.err, this.out, this.shape, this.isSome, this.hooks, this.started, this.bufOut, this.bufErr⟩
     · intro h; simp [h]
-  · simp only [doRefresh, hk]
+  · simp only [doRefresh, hk, ha, if_true]
     constructor
     · intro h; simp only [h, if_true]; exact hooked_noFault cfg st []
     · intro h; simp [h]
+
+/-- Printing and refreshing never touch the FileProxy buffers (any faults). -/
+theorem hooked_bufs (cfg : Cfg) (fails : Nat → Bool) (st : St) (U : List Line) :
+    (hooked cfg fails st U).st.bufOut = st.bufOut ∧ (hooked cfg fails st U).st.bufErr = st.bufErr := by
+  cases hk : cfg.kind <;> simp only [hooked, hk]
+  · split <;> simp
+  · simp
+  · split <;> simp
+
+theorem hookedFile_bufs (cfg : Cfg) (fails : Nat → Bool) (st : St) (U : List Line) :
+    (hookedFile cfg fails st U).st.bufOut = st.bufOut ∧ (hookedFile cfg fails st U).st.bufErr = st.bufErr := by
+  unfold hookedFile; split <;> simp
+
+theorem doPrint_bufs (cfg : Cfg) (fails : Nat → Bool) (st : St) (U : List Line) :
+    (doPrint cfg fails st U).st.bufOut = st.bufOut ∧ (doPrint cfg fails st U).st.bufErr = st.bufErr := by
+  unfold doPrint
+  split
+  · split
+    · exact hooked_bufs cfg fails st U
+    · split
+      · exact hookedFile_bufs cfg fails st U
+      · exact ⟨rfl, rfl⟩
+  · exact ⟨rfl, rfl⟩
+
+theorem doRefresh_bufs (cfg : Cfg) (fails : Nat → Bool) (st : St) :
+    (doRefresh cfg fails st).st.bufOut = st.bufOut ∧ (doRefresh cfg fails st).st.bufErr = st.bufErr := by
+  have other : ((if cfg.ansi then (if st.hooks > 0 then hooked cfg fails st [] else { st := st })
+      else if !st.started && !cfg.transient then doPrint cfg fails st [] else { st := st }) : Res).st.bufOut = st.bufOut ∧
+      ((if cfg.ansi then (if st.hooks > 0 then hooked cfg fails st [] else { st := st })
+      else if !st.started && !cfg.transient then doPrint cfg fails st [] else { st := st }) : Res).st.bufErr = st.bufErr := by
+    split
+    · split
+      · exact hooked_bufs cfg fails st []
+      · exact ⟨rfl, rfl⟩
+    · split
+      · exact doPrint_bufs cfg fails st []
+      · exact ⟨rfl, rfl⟩
+  cases hk : cfg.kind <;> simp only [doRefresh, hk]
+  · exact other
+  · split
+    · exact ⟨rfl, rfl⟩
+    · generalize columnCalls fails st.calls st.tasks = cc
+      obtain ⟨c, ok⟩ := cc
+      cases ok
+      · exact ⟨rfl, rfl⟩
+      · simp only [Bool.not_true, Bool.false_eq_true, if_false]
+        split
+        · exact hooked_bufs cfg fails { st with calls := c, renderable := tasksTable cfg.cw st.tasks } []
+        · exact ⟨rfl, rfl⟩
+  · exact other
 
 /-! ### preservation lemmas -/
 
@@ -95,16 +164,30 @@ theorem atBlank_shown_nil {s : Screen} {P : List Line} {m : Nat} (h : AtBlank s 
   · rw [h.row]; simp [region]
   · rw [h.col]; simp [region]
 
-/-- Screen part of a hooked print (needs no fit of the new frame). -/
+theorem region_map_length (c : Line → Line) (F : Frame) : (region (F.map c)).length = (region F).length := by
+  cases F <;> simp [region]
+
+theorem shapeOk_map (c : Line → Line) {shape : Option (Nat × Nat)} {F : Frame} (h : ShapeOk shape F) :
+    ShapeOk shape (F.map c) := by
+  cases shape with
+  | none => have : F = [] := h; subst this; exact rfl
+  | some wh => obtain ⟨w, hh⟩ := wh; show hh = (F.map c).length; rw [List.length_map]; exact h
+
+/-- Screen part of a hooked print (needs no fit of the new frame).  The screen holds *cells*. -/
 theorem hooked_screen {cfg : Cfg} {st : St} {P : List Line} {F : Frame} {s : Screen} {U : List Line} {r : Res}
-    (hsh : ∃ k, Shown s P F k ∧ (region F).length + k ≤ cfg.height) (hshape : ShapeOk st.shape F)
-    (hr : HookedRes cfg st U r) :
-    ∃ s' k', Run cfg.height P.length s r.out s' ∧ Shown s' (P ++ U) (shown cfg r.st) k' ∧
+    (hsh : ∃ k, Shown s (P.map (cells cfg.cw)) (F.map (cells cfg.cw)) k ∧ (region F).length + k ≤ cfg.height)
+    (hshape : ShapeOk st.shape F) (hr : HookedRes cfg st U r) :
+    ∃ s' k', Run cfg.height P.length s r.out s' ∧
+      Shown s' ((P ++ U).map (cells cfg.cw)) ((shown cfg r.st).map (cells cfg.cw)) k' ∧
       (region (shown cfg r.st)).length + k' ≤ max cfg.height (region (shown cfg r.st)).length ∧
       s'.visible = s.visible := by
   obtain ⟨k, hs, hk⟩ := hsh
-  obtain ⟨s', k', hrun, hs', hk', hv⟩ := run_hooked (H := cfg.height) hs hshape hk U (shown cfg r.st)
-  exact ⟨s', k', by rw [hr.out]; exact hrun, hs', hk', hv⟩
+  obtain ⟨s', k', hrun, hs', hk', hv⟩ := run_hooked (H := cfg.height) hs (shapeOk_map _ hshape)
+    (by rw [region_map_length]; exact hk) (U.map (cells cfg.cw)) ((shown cfg r.st).map (cells cfg.cw))
+  refine ⟨s', k', ?_, ?_, ?_, hv⟩
+  · rw [hr.out]; rw [List.length_map] at hrun; exact hrun
+  · rw [List.map_append]; exact hs'
+  · rw [region_map_length] at hk'; exact hk'
 
 theorem good_hooked {cfg : Cfg} {st : St} {v : View} {s : Screen} {U : List Line} {r : Res}
     (g : Good cfg st v s) (hh : st.hooks > 0) (hr : HookedRes cfg st U r)
@@ -127,15 +210,20 @@ theorem good_silent {cfg : Cfg} {st st' : St} {v : View} {s : Screen}
 
 theorem good_idle_print {cfg : Cfg} {st : St} {v : View} {s : Screen} (U : List Line)
     (g : Good cfg st v s) (hh : st.hooks = 0) :
-    ∃ s', Run cfg.height v.printed.length s (emitLines U) s' ∧ Good cfg st { v with printed := v.printed ++ U } s' := by
+    ∃ s', Run cfg.height v.printed.length s (emitCells cfg U) s' ∧ Good cfg st { v with printed := v.printed ++ U } s' := by
   have hst : st.started = false := by
     have := g.hooks; rw [hh] at this
     cases h : st.started <;> simp [h] at this ⊢
   obtain ⟨hF, hshape⟩ := g.idle hst
   obtain ⟨k, hs, hk⟩ := g.shown
   rw [hF] at hs hk
-  obtain ⟨s', hrun, hb, _⟩ := run_lines (H := cfg.height) U s v.printed _ (shown_nil_atBlank hs)
-  refine ⟨s', hrun, ⟨⟨_, by rw [hF]; exact atBlank_shown_nil hb, ?_⟩, ?_, g.hooks, ?_⟩⟩
+  obtain ⟨s', hrun, hb, _⟩ := run_lines (H := cfg.height) (U.map (cells cfg.cw)) s (v.printed.map (cells cfg.cw)) _
+    (shown_nil_atBlank (by simpa using hs))
+  rw [List.length_map] at hrun
+  have hsh := atBlank_shown_nil hb
+  refine ⟨s', hrun, ⟨⟨max (1 + k - (U.map (cells cfg.cw)).length) 1 - 1, ?_, ?_⟩, ?_, g.hooks, ?_⟩⟩
+  · show Shown s' ((v.printed ++ U).map (cells cfg.cw)) (v.frame.map (cells cfg.cw)) _
+    rw [hF, List.map_append]; exact hsh
   · show (region v.frame).length + _ ≤ _
     rw [hF]; simp [region] at hk ⊢; omega
   · show ShapeOk st.shape v.frame
